@@ -189,13 +189,19 @@ def concretise(abstract, rnd):
 def random_abstract(rnd):
     """second source of abstract behaviours (same vocabulary as AwDurable's Emit)"""
     out = []
-    mode = rnd.choice(["mixed", "trickle", "slowtrickle", "deletes", "bursts", "upserts"])
+    mode = rnd.choice(["mixed", "trickle", "slowtrickle", "deletes", "bursts", "upserts", "idlebulk"])
     for _ in range(rnd.randint(5, 18)):
         r = rnd.random()
         if mode == "trickle":
             out.append({"op": "tick", "n": rnd.choice([1, 9, 11, 15, 16, 30, 3600, 86400, 86403, 172807, 2592001])})
             out.append({"op": rnd.choice(["insert", "insert", "replace", "delete"]), "n": 1})
             if r < 0.1:
+                out.append({"op": "read", "n": 0})
+        elif mode == "idlebulk":
+            # a bulk write larger than any internal chunk size, issued long after the last flush: durable as a whole on return
+            out.append({"op": "tick", "n": rnd.choice([15, 30, 3600])})
+            out.append({"op": "insert", "n": rnd.choice([101, 120, 130, 250, 70, 51])})
+            if r < 0.3:
                 out.append({"op": "read", "n": 0})
         elif mode == "slowtrickle":
             # every gap is below the age limit, their sum is not: only the age of the OLDEST buffered write can flush these
